@@ -11,6 +11,7 @@ pub mod ivp;
 pub mod c03;
 pub mod c01;
 pub mod c13;
+pub mod c11;
 
 pub struct Tier {
     pub thorough: bool,
@@ -118,6 +119,7 @@ pub fn run_property(id: &str, t: &Tier, replay: Option<(String, std::collections
         "C03" => c03::run(&mut pr, t),
         "C01" => c01::run(&mut pr, t),
         "C13" => c13::run(&mut pr, t),
+        "C11" => c11::run(&mut pr, t),
         _ => return None,
     }
     let _ = explore;
